@@ -53,6 +53,19 @@ def plans_c16(prop, tier, seed):
     ]
 
 
+def plans_c15(prop, tier, seed):
+    q = tier == "quick"
+    return [
+        dict(name="iterLWW", consts=base_consts(NR=2, Writer0=[1, 2], Lid=["X"] * 2, Denied=[set()] * 2,
+                                                MaxE=3 if q else 4, MaxOps=6 if q else 7, IterOn={1})),
+        dict(name="iterHASH", consts=base_consts(NR=2, Writer0=[1, 1], Lid=["X"] * 2, Denied=[set()] * 2, Fn="HASH",
+                                                 MaxE=4, MaxOps=7, IterOn={1}, HashPerm="rev"),
+             max_scripts=20000 if q else None),
+        dict(name="iterBig", consts=base_consts(NR=3, MaxE=5, MaxOps=8, IterOn={1, 2}),
+             max_scripts=10000 if q else 150000, timeout=3000),
+    ][:2 if q else 3]
+
+
 def run_l(planner):
     def _run(prop, tier, seed, report, scratch):
         binpath = build_harness(scratch)
@@ -71,6 +84,7 @@ CHECKS = {
     "C03": dict(level="model_checking", run=run_l(plans_core)),
     "C05": dict(level="model_checking", run=run_l(plans_core)),
     "C04": dict(level="model_checking", run=run_l(plans_c04)),
+    "C15": dict(level="model_checking", run=run_l(plans_c15)),
     "C16": dict(level="model_checking", run=run_l(plans_c16)),
 }
 
